@@ -3,7 +3,7 @@ from vf import Check, Stream, TieBroken, VERIF, BUILD, REPO, sh, log, first_diff
 sys.path.insert(0, os.path.join(os.path.dirname(os.path.abspath(__file__)), '..', 'gen'))
 import tables_future
 
-QUICK_MUL = 22  # stream sizes of the quick tier (thorough: ten times as many)
+QUICK_MUL = 22  # stream sizes of the quick tier (thorough: eight times as many)
 NF = 8  # futures a generated case uses at most (harness/driver allow 64)
 
 
@@ -273,7 +273,12 @@ class C10(Check):
                   'wake-ups, is C11) - only the position of the broadcast in Signal::set relative to the unlock is modelled (WBcast); '
                   '`delete` of a Future = destructor (join) + EvDestroy, the object created afterwards is another future index (memory '
                   're-use is not modelled); Time::ticks is a scheduler-chosen bit; the Thread object list (_threads/_terminated), '
-                  '~ThreadPool and deletion of the call record are not modelled; a Thread::start that fails leaves _threadCount incremented '
+                  '~ThreadPool and deletion of the call record are not modelled (observation, no part of the property: ~ThreadPool pushes one '
+                  'null job per worker context, also for contexts of workers that have retired and were not yet removed by a later start(); '
+                  'with a queue smaller than the number of such stale contexts the destructor waits for room for ever - impossible with the '
+                  'library\'s own capacity 256, reachable with the capacity-1 pools of the cases: under CPU load 1 shrink case in ~1500 ended '
+                  'with two stale contexts; the harness therefore removes terminated contexts with the library\'s own clean-up loop before it '
+                  'deletes the pool); a Thread::start that fails leaves _threadCount incremented '
                   '(the pool then believes in a worker that does not exist; not modelled, Thread::start never fails in the runs); counters are '
                   'unbounded. OPEN FINDING (proposed known_findings entry, witness corpus/C10/open/nested-start-full-queue.ops): a started '
                   'function that starts another future blocks in start() for ever when the queue is full and every worker is inside such a '
@@ -360,6 +365,8 @@ class C10(Check):
                 res += [[self.NOT_RUN % self.hangs_seen] for _ in cases[a:]]
                 break
             to = self.per_case_timeout if self.hangs_seen < 2 else self.short_timeout
+            if all(any(' w job fut ' in l for l in c) for c in cases[a:a + step]):
+                to = self.short_timeout      # the witness of the open finding is expected to hang: 6 s are enough to see it
             r, c = run_exe_on_cases(self.exes['impl'], cases[a:a + step], os.path.join(BUILD, self.id, 'run'), tag,
                                     is_impl=True, per_case_timeout=to)
             res += r
@@ -423,7 +430,7 @@ class C10(Check):
 
     def streams(self, tier, rng):
         thorough = tier == 'thorough'
-        mul = QUICK_MUL * 10 if thorough else QUICK_MUL
+        mul = QUICK_MUL * 8 if thorough else QUICK_MUL
         out = []
         sd = lambda: rng.randrange(1, 1 << 30)
         # 1. one client, sequential use (what TestFuture does, plus abort / restart / result reuse)
@@ -569,10 +576,16 @@ class C10(Check):
         if tier == 'thorough':
             # two clients, capacity 1 (audit finding 4)
             jobs += [('window2-q1.ops', '6', '9000000', {}, False)]
-        for f, window, limit, env, expect in jobs:
+        def run_job(job):
+            f, window, limit, env, expect = job
             e = dict(os.environ)
             e.update(env)
-            rc, out, err = sh([drv, 'search', os.path.join(sdir, f), window, limit], timeout=1500, env=e)
+            return job, sh([drv, 'search', os.path.join(sdir, f), window, limit], timeout=2400, env=e)
+        # the searches are independent single-threaded processes: run them side by side
+        from concurrent.futures import ThreadPoolExecutor
+        with ThreadPoolExecutor(max_workers=4) as ex:
+            results = list(ex.map(run_job, jobs))
+        for (f, window, limit, env, expect), (rc, out, err) in results:
             found = 'deadlock after' in out
             head = ' / '.join(l for l in out.split('\n') if l.startswith('#'))
             log('[C10] model search %s window=%s %s: %s' % (f, window, 'old handshake' if env else 'current code', head))
